@@ -130,17 +130,31 @@ class Sink:
 # ------------------------------------------------------------------ calls
 
 class HCtx(FreshCtx):
+    transplant = False
+
     def seed(self):
         s = self.draw_seed()
         if self.seed_mode == 'generator':
+            if self.transplant:
+                # a generator with another past (other seed, children spawned) whose STATE is then set to that of a fresh
+                # PCG64(s): a function that draws from the object only cannot tell the difference
+                g = YGen(np.random.PCG64((s * 7 + 3) % (1 << 62)))
+                try:
+                    g.spawn(2)
+                except Exception:
+                    pass
+                g.bit_generator.state = np.random.PCG64(s).state
+                self.seed_value = g
+                return g
             self.seed_value = YGen(np.random.PCG64(s))
         else:
             self.seed_value = s
         return self.seed_value
 
 
-def build_call(spec, n, monitor=None):
+def build_call(spec, n, monitor=None, transplant=False):
     ctx = HCtx(spec['argseed'], n, seed_mode=spec.get('seed_mode', 'int'), monitor=monitor)
+    ctx.transplant = transplant
     call = api.ENTRIES[spec['entry']]['build'](ctx)
     if spec.get('own_dict') is False and call.defaults_dict is None:
         pass
@@ -180,6 +194,20 @@ def modify_args(call):
                 arr += 0.25
                 n += 1
     return n
+
+
+def args_digest(call):
+    """Digest of every argument the call may not change (documented in-place / info / cache arguments excluded)."""
+    items = []
+    for i, a in enumerate(call.args):
+        if i not in call.mutable and not callable(a) and not isinstance(a, np.random.Generator):
+            items.append(a)
+    for k in sorted(call.kwargs):
+        v = call.kwargs[k]
+        if k not in call.mutable and not callable(v) and not isinstance(v, np.random.Generator) and \
+                not (isinstance(v, list) and v and callable(v[0])):
+            items.append((k, v))
+    return dig(items)
 
 
 def repeat_ok(call, spec):
@@ -234,6 +262,7 @@ class Client:
         self.results2 = {}         # spec index -> digest of the call repeated after the caller modified its arguments
         self.results_rep = {}      # spec index -> digest of the call repeated with the very same objects
         self.check_failures = []
+        self.arg_changes = []
         self.error = None
         self.kept = []
 
@@ -281,13 +310,16 @@ class Sched:
         try:
             for k, spec in enumerate(cl.script):
                 mon = (lambda tag, cl=cl: self.point(cl, tag))
-                call, ctx = build_call(spec, self.sc['n'], monitor=mon)
+                call, ctx = build_call(spec, self.sc['n'], monitor=mon, transplant=True)
+                args_before = args_digest(call)
                 cl.atomic = call.defaults_dict is not None
                 self.point(cl, 'enter')
                 cl.in_call = True
                 res, exc = run_call(call)
                 cl.in_call = False
                 dg = result_digest(call, ctx, res, exc)
+                if not call.passthrough and args_digest(call) != args_before:
+                    cl.arg_changes.append((k, spec['entry']))
                 cl.results.append((k, dg))
                 if call.check is not None and exc is None:
                     bad = call.check(res)
@@ -516,6 +548,10 @@ def execute(sc):
             if cl.error:
                 V.append(viol('liveness', 'client %d: %s' % (cl.id, cl.error)))
                 continue
+            for k, nm in cl.arg_changes:
+                V.append(viol('history-through-arguments', 'client %d call %d: %s changed the contents of an argument it may not change: every later call that '
+                              'is given the same object sees other data than the caller put there' % (cl.id, k, nm)))
+                break
             for k, bad in cl.check_failures:
                 V.append(viol('twin', 'client %d call %d: %s' % (cl.id, k, bad)))
                 break
